@@ -1,10 +1,11 @@
-\* exhaustive: every sequence of MaxN entries of the full alphabet after prologues 2-4 (prologue 1 is a prefix of 2)
+\* transition cover, depth 1: every (prologue state, entry) pair is printed and replayed on the real server
 SPECIFICATION Spec
 CONSTANTS
   NetName = "robustirc.net"
-  MaxN = 2
+  MaxN = 1
   Families = {"reg", "member", "mode", "talk", "oper", "services", "entry", "addr", "time"}
-  Prologues = {2, 3, 4}
+  Prologues = {1, 2, 3, 4}
 INVARIANT NoFailure
+ACTION_CONSTRAINT EmitEdge
 VIEW View
 CHECK_DEADLOCK FALSE
